@@ -119,6 +119,11 @@ def make_instance(cls, rng, depth=2, fill=0.7, foreign=0.0, stats=None, want_tex
             inst.extension_attributes["{%s}verifExtra" % cls.c_namespace] = "own-ns-extra"
         ee = ExtensionElement("Foreign%d" % rng.randint(0, 3), namespace="urn:verif:foreign",
                               attributes={"k": rng.choice(ATTR_SAMPLES)}, text=rng.choice(TEXT_SAMPLES))
+        if rng.random() < 0.6:
+            # namespace-qualified attributes on foreign content (xsi:type and the like)
+            ee.attributes["{urn:verif:foreign3}q"] = "qv-" + gen.word(rng, 1, 3)
+            if rng.random() < 0.5:
+                ee.attributes["{http://www.w3.org/2001/XMLSchema-instance}type"] = "xs:string"
         if rng.random() < 0.5:
             ee.children.append(ExtensionElement("Inner", namespace="urn:verif:foreign2", text="inner"))
         inst.extension_elements = [ee]
